@@ -2,12 +2,14 @@ import DFV.Lemmas.C11Trip
 import DFV.Lemmas.C11Complex
 import DFV.Lemmas.C11Ex
 import DFV.Lemmas.C11More
+import DFV.Lemmas.C11Real
 import DFV.Lemmas.C11PolyC
 /-!
 # C11 — field FFTs are the discrete Fourier transform at the k-mesh's frequencies
 
 Property theorems only (helper lemmas and the spec-level definitions `kMesh`, `originMesh`,
-`sumBox`, `phase`, `lastShift`, `IsRoot`, `Roots`, `IsConj`, `CFInv` live in `DFV/Lemmas/C11*.lean`).
+`sumBox`, `phase`, `phaseR`, `ninvProd`, `lastShift`, `mirror`, `IsRoot`, `Roots`, `Root.swap`, `IsConj`, `CFInv`,
+`IsHom`, `Root.map`, `CF.map`, `mapM`, `Ev`, `PrimRoot(s)`, `Ev.ConjOK`, `cEv` live in `DFV/Lemmas/C11*.lean`).
 
 Part (a) is exact arithmetic over `Rat` about the model of `Mesh.fftn` / `Mesh.ifftn`
 (`DFV/Model/C11.lean`), for every number of dimensions, every region, every mix of even, odd and
@@ -187,6 +189,41 @@ theorem ifftn_shape_checked (k : Mesh) (rfft : Bool) (s : List Nat)
          s.getD (k.ndim - 1) 0 / 2 + 1 ≠ k.nAt (k.ndim - 1)) :
     meshIfftn k rfft (some s) = .error .value :=
   meshIfftn_err_of_shape k rfft s .value (ifftShape_rejects k rfft s h)
+
+/-- **Extent of the k-mesh**: along every axis the full transform's k-mesh spans exactly one
+sampling period `1/cell` (its `n` cells of size `1/(n·cell)`); the last axis of the real
+transform spans `(⌊n/2⌋+1)/(n·cell)`. -/
+theorem kmesh_extent (m : Mesh) (hm : m.Inv) (a : Nat) (ha : a < m.ndim) :
+    (∀ k, meshFftn m false = .ok k → k.region.edge a = 1 / m.cellAt a) ∧
+    (∀ k, meshFftn m true = .ok k → a = m.ndim - 1 →
+      k.region.edge a = ((m.nAt a / 2 + 1 : Nat) : Rat) / ((m.nAt a : Rat) * m.cellAt a)) := by
+  have hn0 : (m.nAt a : Rat) ≠ 0 := ne_of_gt (nat_cast_pos' _ (hm.2.2 a ha))
+  have hd0 : m.cellAt a ≠ 0 := ne_of_gt (cell_pos m hm a ha)
+  refine ⟨?_, ?_⟩
+  · intro k h
+    have h1 := kcell_size m false k h hm a ha
+    have h2 := (kcell_centres m k h hm a ha).1
+    unfold Mesh.cellAt at h1
+    rw [h2] at h1
+    have : k.region.edge a = (k.region.edge a / (m.nAt a : Rat)) * (m.nAt a : Rat) := by field_simp
+    rw [this, h1]
+    unfold Mesh.cellAt
+    field_simp
+  · intro k h hl
+    subst hl
+    have h1 := kcell_size m true k h hm _ ha
+    have h2 := (kcell_centres_rfft m k h hm).1
+    have hk0 : ((m.nAt (m.ndim - 1) / 2 + 1 : Nat) : Rat) ≠ 0 := by
+      have : (0 : Rat) < ((m.nAt (m.ndim - 1) / 2 + 1 : Nat) : Rat) := nat_cast_pos' _ (Nat.succ_pos _)
+      exact ne_of_gt this
+    unfold Mesh.cellAt at h1
+    rw [h2] at h1
+    have : k.region.edge (m.ndim - 1)
+        = (k.region.edge (m.ndim - 1) / ((m.nAt (m.ndim - 1) / 2 + 1 : Nat) : Rat)) *
+            ((m.nAt (m.ndim - 1) / 2 + 1 : Nat) : Rat) := by field_simp
+    rw [this, h1]
+    unfold Mesh.cellAt
+    field_simp
 
 /-! ## (b) the transforms -/
 
@@ -417,6 +454,54 @@ theorem fftn_ifftn_values (ρs : List (Root R)) (nv : Nat) (a : NDA (List R)) (h
     compA (fftnArr ρs nv (ifftnArr ρs nv a)) c m = compA a c m :=
   fftn_ifftn_arr ρs nv a hρ m hm c hc
 
+/-- **Real forward ∘ real inverse = identity**: `rfftn(irfftn(G, s))` holds the half spectrum `G`
+(shape `halfShape s`) again in every cell and component, for even and odd last counts `s` —
+the real forward transform reads back exactly the non-negative-frequency half the inverse was
+built from. -/
+theorem rfftn_irfftn_values (conj : R → R) (ρs : List (Root R)) (nv : Nat) (s : List Nat) (a : NDA (List R))
+    (hs : a.shape = halfShape s) (hpos : ∀ n ∈ s, 0 < n) (hρ : Roots s ρs)
+    (m : List Nat) (hm : inRange (halfShape s) m = true) (c : Nat) (hc : c < nv) :
+    compA (rfftnArr ρs nv (irfftnArr conj ρs nv s a)) c m = compA a c m :=
+  rfftn_irfftn_arr conj ρs nv s a hs hpos hρ m hm c hc
+
+/-- **The real transform is the DFT at the k-cell's frequency.**  Every component of every cell
+`m` of `Field.rfftn` holds the sum over all real-space cells `r` of `value(r)` times
+`Π_{a<last} w_a^(m_a r_a)·wi_a^(⌊n_a/2⌋ r_a) · w_last^(m_last r_last)` — `exp(-2πi k·r)` with `k` the
+centre of k-cell `m` of `mesh.fftn(rfft=True)` (last axis unshifted: `kcell_centres_rfft`). -/
+theorem rfftn_is_dft (ρs : List (Root R)) (f g : CF R) (h : rfftn ρs f = .ok g)
+    (hρ : Roots f.data.shape ρs) (m : List Nat) (hm : inRange (halfShape f.data.shape) m = true)
+    (c : Nat) (hc : c < f.nvdim) :
+    compA g.data c m = sumBox f.data.shape fun r => compA f.data c r * phaseR ρs f.data.shape m r := by
+  unfold rfftn at h
+  split at h
+  · cases h
+  · rw [(finish_ok h).2.1]
+    exact rfftnArr_is_dft ρs f.nvdim f.data hρ m hm c hc
+
+/-- **`irfftn` returns real data.**  For every half spectrum that is conjugate-symmetric on its
+self-mirror planes (unshifted last index 0 and, for an even output count, `n/2`) — the inputs
+the real inverse is specified for — every cell and component of the model's `irfftn` is fixed by
+the conjugation, for even and odd output counts. -/
+theorem irfftn_returns_real (conj : R → R) (hc : IsConj conj) (hinv : ∀ x, conj (conj x) = x) (ρs : List (Root R))
+    (nv : Nat) (s : List Nat) (a : NDA (List R)) (hρ : Roots s ρs) (hcr : ConjRoots conj s ρs)
+    (c : Nat) (hcv : c < nv)
+    (hcons : ∀ k, inRange s k = true → (k.getLastD 0 = 0 ∨ 2 * k.getLastD 0 = s.getLastD 0) →
+      conj (compA a c (ishiftR a.shape k)) = compA a c (ishiftR a.shape (negIdx s k)))
+    (j : List Nat) :
+    conj (compA (irfftnArr conj ρs nv s a) c j) = compA (irfftnArr conj ρs nv s a) c j :=
+  irfftnArr_real conj hc hinv ρs nv s a hρ hcr c hcv hcons j
+
+/-- **What `rfftn` produces is such a half spectrum**: for conj-fixed data the half spectrum is
+conjugate-symmetric under index negation on every plane, so `irfftn_returns_real` and the
+round trip `irfftn_rfftn` are about the same class of inputs. -/
+theorem rfftn_spectrum_consistent (conj : R → R) (hc : IsConj conj) (ρs : List (Root R)) (nv : Nat)
+    (a : NDA (List R)) (hρ : Roots a.shape ρs) (hcr : ConjRoots conj a.shape ρs)
+    (hreal : ∀ i c, conj (compA a c i) = compA a c i) (c : Nat) (hcv : c < nv)
+    (k : List Nat) (hk : inRange a.shape k = true) :
+    conj (compA (rfftnArr ρs nv a) c (ishiftR (rfftnArr ρs nv a).shape k))
+      = compA (rfftnArr ρs nv a) c (ishiftR (rfftnArr ρs nv a).shape (negIdx a.shape k)) :=
+  rfftnArr_consistent conj hc ρs nv a hρ hcr hreal c hcv k hk
+
 /-- **The inverse transform is the inverse DFT at the k-cells' frequencies.**  Every component
 of every real-space cell `j` of `Field.ifftn` holds `Π_a(1/n_a)` times the sum over all k-cells
 `m` of `value(m) · Π_a wi_a^(m_a·j_a) · w_a^(⌊n_a/2⌋·j_a)`, i.e. `value(m)·exp(+2πi k_m·r_j)` with
@@ -547,12 +632,15 @@ variable {R : Type} [CommRing R]
 (`Poly`: sums = concatenation of term lists, products = added exponent vectors and multiplied
 Gaussian-rational coefficients) into any commutative ring — rationals through a ring
 homomorphism, the imaginary unit to an `I` with `I² = -1`, the formal root of axis `a` to an
-ARBITRARY `ζ_a` — preserves `0`, `1`, `+` and `·`, sends constants to `q re + q im·I` and the
-monomial `ζ_a^k` to `ζ_a^k`.  No hypothesis on the roots is used by the arithmetic. -/
+ARBITRARY `ζ_a` — preserves `0`, `1`, `+` and `·`, sends constants to `q re + q im·I`, the
+monomial `ζ_a^k` to `ζ_a^k` and scalar multiples to scalar multiples.  No hypothesis on the roots
+is used by the arithmetic. -/
 theorem poly_eval_hom (ev : Ev R) (d : Nat) :
     IsHom (ev.eval d) ∧ (∀ re im, ev.eval d (Poly.const re im) = ev.q re + ev.q im * ev.I) ∧
-    (∀ a k, a < d → ev.eval d (Poly.mono a k) = ev.ζ a ^ k) :=
-  ⟨ev.eval_isHom d, fun re im => ev.eval_const d re im, fun a k ha => ev.eval_mono d a k ha⟩
+    (∀ a k, a < d → ev.eval d (Poly.mono a k) = ev.ζ a ^ k) ∧
+    (∀ re im p, ev.eval d (Poly.const re im * p) = (ev.q re + ev.q im * ev.I) * ev.eval d p) :=
+  ⟨ev.eval_isHom d, fun re im => ev.eval_const d re im, fun a k ha => ev.eval_mono d a k ha,
+    fun re im p => by rw [ev.eval_mul, ev.eval_const]; rfl⟩
 
 /-- **`Poly.conj` is conjugation** (exponents `e ↦ (n - e mod n) mod n`, `i ↦ -i`) for every
 conjugation of `R` that fixes the rationals, negates `I` and inverts the `ζ_a`, once
@@ -661,6 +749,54 @@ theorem driver_fftn_is_dft (ev : Ev R) (f g : CF Poly) (h : fftn (Poly.roots f.d
     compA_mapA hh]
   rfl
 
+/-- the same end to end for `Field.rfftn` (last axis unshifted) -/
+theorem driver_rfftn_is_dft (ev : Ev R) (f g : CF Poly) (h : rfftn (Poly.roots f.data.shape) f = .ok g)
+    (hp : PrimRoots ev f.data.shape) (m : List Nat) (hm : inRange (halfShape f.data.shape) m = true)
+    (c : Nat) (hc : c < f.nvdim) :
+    ev.evalDense f.data.shape (Poly.dense f.data.shape (compA g.data c m))
+      = sumBox f.data.shape fun r =>
+          ev.eval f.data.shape.length (compA f.data c r) * phaseR (ev.roots f.data.shape) f.data.shape m r := by
+  have hh := ev.eval_isHom f.data.shape.length
+  rw [ev.evalDense_dense f.data.shape (fun a ha => (hp a ha).1) (fun a ha => (hp a ha).2.pow_n)]
+  have h1 := (driver_evaluates_to_model ev f).2.1
+  rw [h] at h1
+  have h2 := rfftn_is_dft (ev.roots f.data.shape) (f.map (ev.eval f.data.shape.length)) _ h1.symm
+    (ev.roots_Roots _ hp) m hm c hc
+  rw [← compA_mapA hh g.data c m]
+  rw [show (g.map (ev.eval f.data.shape.length)).data = mapA (ev.eval f.data.shape.length) g.data from rfl] at h2
+  rw [h2]
+  apply sumBox_congr
+  intro r _
+  rw [show (f.map (ev.eval f.data.shape.length)).data = mapA (ev.eval f.data.shape.length) f.data from rfl,
+    compA_mapA hh]
+  rfl
+
+/-- **The driver's printed inverse transform is the inverse DFT.**  The same end to end for
+`Field.ifftn`: the printed table of any component of any real-space cell `j` of the symbolic
+result evaluates to `Π_a q(1/n_a) · Σ_m value(m) · Π_a ζ_a^(-m_a j_a) · ζ_a^(⌊n_a/2⌋ j_a)` over all
+k-cells `m`. -/
+theorem driver_ifftn_is_idft (ev : Ev R) (f g : CF Poly) (h : ifftn (Poly.roots f.data.shape) f = .ok g)
+    (hp : PrimRoots ev f.data.shape) (j : List Nat) (c : Nat) (hc : c < f.nvdim) :
+    ev.evalDense f.data.shape (Poly.dense f.data.shape (compA g.data c j))
+      = ninvProd (ev.roots f.data.shape) f.data.shape * sumBox f.data.shape fun m =>
+          ev.eval f.data.shape.length (compA f.data c m) *
+            phase ((ev.roots f.data.shape).map Root.swap) f.data.shape m j := by
+  have hh := ev.eval_isHom f.data.shape.length
+  rw [ev.evalDense_dense f.data.shape (fun a ha => (hp a ha).1) (fun a ha => (hp a ha).2.pow_n)]
+  have h1 := (driver_evaluates_to_model ev f).2.2
+  rw [h] at h1
+  have h2 := ifftn_is_idft (ev.roots f.data.shape) (f.map (ev.eval f.data.shape.length)) _ h1.symm
+    (ev.roots_Roots _ hp) j c hc
+  rw [← compA_mapA hh g.data c j]
+  rw [show (g.map (ev.eval f.data.shape.length)).data = mapA (ev.eval f.data.shape.length) g.data from rfl] at h2
+  rw [h2]
+  congr 1
+  apply sumBox_congr
+  intro r _
+  rw [show (f.map (ev.eval f.data.shape.length)).data = mapA (ev.eval f.data.shape.length) f.data from rfl,
+    compA_mapA hh]
+  rfl
+
 /-- **The hypotheses of part (c) are satisfiable for every shape, by the harness's own
 substitution**: rationals into ℂ, `I ↦ i`, `ζ_a ↦ exp(-2πi/n_a)` are primitive roots, complex
 conjugation is a conjugation for them, and the driver's formal roots evaluate to exactly the
@@ -700,6 +836,10 @@ example : Roots [2, 1] [(⟨-1, -1, 1/2⟩ : Root ℚ), ⟨1, 1, 1⟩] := by
 `driver_fftn_is_dft`, `poly_dense_value`, `poly_conj_is_conj` are not vacuous -/
 example : PrimRoots (cEv [3, 1, 2]) [3, 1, 2] ∧ (cEv [3, 1, 2]).ConjOK (starRingEnd ℂ) 3 :=
   ⟨(driver_complex [3, 1, 2] (by decide)).1, (driver_complex [3, 1, 2] (by decide)).2.1⟩
+
+/-- complex conjugation is an involution (hypothesis `hinv` of `irfftn_returns_real`); its
+consistency hypothesis is met by every `rfftn` of real data (`rfftn_spectrum_consistent`) -/
+example : ∀ x : ℂ, (starRingEnd ℂ) ((starRingEnd ℂ) x) = x := Complex.conj_conj
 
 /-- a symbolic field as the driver builds it (Gaussian-rational constants) is a valid field, and
 `fftn` over `Poly` succeeds on it: the hypothesis `fftn (Poly.roots shape) f = .ok g` of
